@@ -14,13 +14,13 @@ yes = sum(1 for r in rows if r[2] == "yes")
 first_missed = sum(1 for r in rows if r[2] == "yes" and ("initially MISSED" in r[4] or "MISSED at quick" in r[4]))
 out = ["\n---------------------------------------------------------------------------------------------------\n",
        "## 12. Seeded changes: which check catches which\n",
-       "Two rounds. Round 1: twenty independent sub-agents (one per property; each given only the property text and a private scratch\nworktree of `/repo`, nothing from `/verif`) produced 3 realistic, subtle property-breaking changes each that compile and pass the\nrepository's test suite. Round 2: fourteen more agents, told only which round-1 sites to avoid. The coordinator confirmed every\nkept change in a scratch worktree (`tools/confirm_seed.py`: demonstration passes on the clean tree, fails with the patch; the\naffected test binary still passes) and ran the matching check against a scratch worktree with the patch applied\n(`tools/try_seed.sh`; `/repo` itself is never touched). Kept under `/verif/seeded/<property>-<name>/{patch.diff, demo.c,\nrun_demo.sh, README.md, meta.json}`; `bin/selftest` re-runs them.\n",
+       "Three rounds. Round 1: twenty independent sub-agents (one per property; each given only the property text and a private scratch\nworktree of `/repo`, nothing from `/verif`) produced 3 realistic, subtle property-breaking changes each that compile and pass the\nrepository's test suite. Round 2: fourteen more agents, told only which round-1 sites to avoid. Round 3 (follow-up session): six agents (C01, C03, C07, C09, C17, C20), two\nchanges each, told only the names of the earlier sites. The coordinator confirmed every\nkept change in a scratch worktree (`tools/confirm_seed.py`: demonstration passes on the clean tree, fails with the patch; the\naffected test binary still passes) and ran the matching check against a scratch worktree with the patch applied\n(`tools/try_seed.sh`; `/repo` itself is never touched). Kept under `/verif/seeded/<property>-<name>/{patch.diff, demo.c,\nrun_demo.sh, README.md, meta.json}`; `bin/selftest` re-runs them.\n",
        "**%d kept: %d detected (VIOLATION with a native replay), %d not detected.** %d of the detected ones were *missed at first* and led\nto a stronger check (new shape, new assertion, new harness, or a driver feature) — the strengthening is named in the row.\nTwo round-1 changes became obsolete (their site was rewritten by a `fix:` commit): `seeded/OBSOLETE.json`.\n" % (len(rows), yes, len(rows) - yes, first_missed),
        "| seed | round | detected | by (tier) | how / why not |\n|---|---|---|---|---|"]
 for r in rows:
     out.append("| %s | %d | %s | %s | %s |" % r)
 out.append("\nA final `bin/selftest` over all %d kept changes (three lanes, quick tier unless the row says thorough) reproduced every row of this table\n(one round-1 patch had to be re-based after a later `fix:` commit touched the same line)." % len(rows))
-out.append("\nThe not-detected ones mark where the claims end: SIMD transforms (C04), helper constructors of the task layer and the\nconnect/send helper (C16), damaged packets in the message queue and sub-syscall interleavings of two workers on the virtual\nqueue (C05), and the lapped-reader logic of the ring buffer that the recorded known findings exclude (C19).\n")
+out.append("\nThe not-detected ones mark where the claims end: SIMD transforms (C04), helper constructors of the task layer and the\nconnect/send helper (C16), damaged packets in the message queue and sub-syscall interleavings of two workers on the virtual\nqueue (C05), the lapped-reader logic of the ring buffer that the recorded known findings exclude (C19), and (round 3) growing `ini_val_set`\nreplacements with names/values longer than the 1-byte thorough shapes (C17) plus whatever the rows marked `no` below say.\n")
 d = open(os.path.join(V, "DESIGN.md")).read()
 i = d.find("\n---------------------------------------------------------------------------------------------------\n\n## 12. Seeded changes")
 if i < 0:
